@@ -35,7 +35,9 @@ from spyne.error import ValidationError
 from spyne.error import ResourceNotFoundError
 
 from spyne.model import ByteArray, File, Fault, ComplexModelBase, Array, Any, \
-    AnyDict, Uuid, Unicode
+    AnyDict, Uuid, Unicode, XmlAttribute
+
+from spyne.model.binary import BINARY_ENCODING_USE_DEFAULT
 
 from spyne.protocol.dictdoc import DictDocument
 
@@ -171,6 +173,10 @@ class HierDictDocument(DictDocument):
             raise ValidationError([key, inst])
 
     def _from_dict_value(self, ctx, key, cls, inst, validator):
+        if issubclass(cls, XmlAttribute):
+            # an ordinary member here: its value is one of the type it wraps
+            cls = cls.type
+
         if validator is self.SOFT_VALIDATION:
             self.validate(key, cls, inst)
 
